@@ -107,8 +107,8 @@ KeyBits(s, from, w) == LET k == Clamp(NBits(s) - from, 0, w) IN [i \in 1..k |-> 
 FromStrOK(in, o) ==
     LET b == KeyBits(in.s, in.from, in.w)  k == Len(b) IN
     /\ in.from >= 0 /\ in.w >= 0 /\ in.w <= 32
-    /\ o.k = k
-    /\ ToSet(o.val) = {in.w - i : i \in {j \in 1..k : b[j] = 1}}
+    /\ (in.direct => /\ o.k = k                      \* FromStr32 itself (called when from + w fits int32)
+                      /\ ToSet(o.val) = {in.w - i : i \in {j \in 1..k : b[j] = 1}})
     /\ ToSet(o.path) = PathOnes(in.w, b)
     /\ o.pstr = Chars(b)
 TraceFromStr == IsEvent("fromstr32") /\ FromStrOK(Ev.in, Ev.out)
